@@ -17,7 +17,7 @@ RULES = {
          "request in a range around -3..320, i32 extremes, usize and Option forms, fractions in [0,1]; shape, range, "
          "normalisation and coverage judged against the exact aggregated distribution; class as for C03"),
 }
-MODULES = ["Props.C08", "Inst.C08"]
+MODULES = ["Props.C08", "Inst.C08", "Inst.C08Hist"]
 
 
 def run(r: Run):
